@@ -117,7 +117,9 @@ def parseDeps (s : String) : Option ((Nat × List Nat) × Bool) :=
     | _, _ => none
   | _ => none
 
-def showBN (b : BN) : String := s!"{b.major}.{b.minor}.{b.patch}.{b.build}"
+def showNum (n : Nat) : String := if n = unknownNum then "?" else toString n
+
+def showBN (b : BN) : String := s!"{showNum b.major}.{showNum b.minor}.{showNum b.patch}.{showNum b.build}"
 
 def dash (l : List String) (sep : String) : String := if l.isEmpty then "-" else sep.intercalate l
 
